@@ -173,7 +173,7 @@ func (g *ExprGen) Gen(t Type, depth int) Expr {
 			case 2:
 				return &EInterp{[]Expr{a}}
 			}
-			return &EInterp{[]Expr{&EStr{g.pick([]string{"p ", "", "x"})}, a, &EStr{g.pick([]string{" q", "", "-"})}, b}}
+			return &EInterp{[]Expr{&EStr{g.pick([]string{"p ", "", "x"})}, a, &EStr{g.pick([]string{" q", "", "-", "}", "}} "})}, b}}
 		case 5:
 			return &ETern{g.Gen(TBool, d), g.Gen(TStr, d), g.Gen(TStr, d)}
 		case 6:
